@@ -243,6 +243,25 @@ def demo_F20_pda_normal_forms_plain_dict():
     return (pda_words_up_to_n(E, 2) == {'', 'a'} and pda_words_up_to_n(Q, 2) == {'', 'a'}, 'ok')
 
 
+def demo_F21_nfa_simulate_word_epsilon_cycle():
+    import signal
+    from gambatools.nfa import NFA
+    from gambatools.nfa_algorithms import nfa_simulate_word
+    from gambatools.pda_algorithms import parse_pda, pda_simulate_word
+    N = NFA({'q0', 'q1', 'q2', 'q3', 'q4'}, {'a', 'b'},
+            {('q0', '_'): {'q3'}, ('q0', 'a'): {'q4'}, ('q0', 'b'): {'q3'}, ('q1', '_'): {'q1', 'q2'}, ('q1', 'a'): {'q4'}, ('q2', '_'): {'q1', 'q2'}, ('q3', '_'): {'q3'},
+             ('q3', 'a'): {'q0'}, ('q4', '_'): {'q1', 'q3'}, ('q4', 'a'): {'q0', 'q2'}, ('q4', 'b'): {'q2'}}, 'q0', {'q2'}, '_')
+    def on_alarm(*_): raise TimeoutError()
+    signal.signal(signal.SIGALRM, on_alarm); signal.alarm(5)
+    try:
+        run = nfa_simulate_word(N, 'a')
+    except TimeoutError:
+        return (False, 'nfa_simulate_word does not terminate (5 s): cyclic back-pointers in nfa_find_epsilon_path')
+    finally:
+        signal.alarm(0)
+    return (run is not None and run[0] == ('q0', 'a') and run[-1] == ('q2', ''), str(run))
+
+
 def demo_F17_state_named_like_keyword():
     from gambatools.dfa import DFA
     from gambatools.dfa_algorithms import print_dfa, parse_dfa
